@@ -1353,39 +1353,44 @@ class Directed(object):
         that overwrite the first / middle / last key or add a new smallest / largest key; equality of two arrays that
         differ at exactly one index; both for the literal and for the store chain."""
         m, rnd = self.m, self.rnd
+        quick = self.tier == "quick"
         out = []
         for sname, n, it, d, pairs, lit, chain, outside in self.sized_arrays():
-            for A in (lit, chain):
-                byid = sorted(pairs, key=lambda kv: id(kv[0]))
-                if n <= 17:
-                    pick = pairs
-                else:
-                    pick = [pairs[0], pairs[-1], pairs[n // 2], byid[0], byid[-1], byid[1], byid[-2]] + rnd.sample(pairs, 5)
-                for k, v in pick:
-                    out.append(m.Equals(m.Select(A, k), v))
-                if n:
-                    out.append(m.And([m.Equals(m.Select(A, k), v) for k, v in pairs]))
-                    out.append(m.Plus([m.Select(A, k) for k, v in pairs] + [m.Int(0)]))
-                for k in outside:
-                    out += [m.Select(A, k), m.Equals(m.Select(A, k), d)]
-                nv = m.Int(7)
-                pos = ([pairs[0], pairs[n // 2], pairs[-1], byid[0], byid[-1]] if n else [])
-                for k, v in pos:                                     # overwrite
-                    S_ = m.Store(A, k, nv)
-                    out += [m.Equals(m.Select(S_, k), nv), m.Equals(S_, A), m.Equals(m.Store(S_, k, v), A), m.Equals(m.Store(A, k, d), A)]
-                    if n > 1:
-                        k2, v2 = byid[-1] if k is not byid[-1][0] else byid[0]
-                        out.append(m.Equals(m.Select(S_, k2), v2))
-                for k in outside:                                    # new key
-                    S_ = m.Store(A, k, nv)
-                    out += [m.Equals(m.Select(S_, k), nv), m.Equals(S_, A)]
-                    if n:
-                        out += [m.Equals(m.Select(S_, byid[-1][0]), byid[-1][1]), m.Equals(m.Select(S_, byid[0][0]), byid[0][1])]
-            out += [m.Equals(lit, chain)]
+            byid = sorted(pairs, key=lambda kv: id(kv[0]))
+            nv = m.Int(7)
+            every = (n <= 17 and (sname == "Int" or not quick))
+            if every:
+                pick = pairs
+            elif n:
+                pick = [byid[-1], byid[0], pairs[0], pairs[-1]] + ([] if quick else [byid[1], byid[-2], pairs[n // 2]] + rnd.sample(pairs, min(5, n)))
+            else:
+                pick = []
+            for k, v in pick:
+                out.append(m.Equals(m.Select(lit, k), v))
             if n:
-                for k, v in (pairs[0], pairs[-1], sorted(pairs, key=lambda kv: id(kv[0]))[-1]):
+                out += [m.And([m.Equals(m.Select(lit, k), v) for k, v in pairs]), m.And([m.Equals(m.Select(chain, k), v) for k, v in pairs]),
+                        m.Equals(m.Select(chain, byid[-1][0]), byid[-1][1])]
+                if sname == "Int":
+                    out.append(m.Plus([m.Select(lit, k) for k, v in pairs] + [m.Int(0)]))
+            for k in outside[:1 if quick else 2]:
+                out += [m.Equals(m.Select(lit, k), d), m.Select(chain, k)]
+            pos = ([byid[-1], byid[0], pairs[n // 2]] + ([] if quick else [pairs[0], pairs[-1]])) if n else []
+            for k, v in pos:                                     # overwrite an assigned key
+                S_ = m.Store(lit, k, nv)
+                k2, v2 = byid[-1] if k is not byid[-1][0] else byid[0]
+                out += [m.Equals(m.Select(S_, k), nv), m.Equals(m.Store(S_, k, v), lit), m.Equals(m.Select(S_, k2), v2)]
+                if not quick:
+                    out += [m.Equals(S_, lit), m.Equals(m.Store(lit, k, d), lit), m.Equals(m.Select(m.Store(chain, k, nv), k2), v2)]
+            for k in outside[:1 if quick else 2]:                # a new key
+                S_ = m.Store(lit, k, nv)
+                out.append(m.Equals(m.Select(S_, k), nv))
+                if n:
+                    out += [m.Equals(m.Select(S_, byid[-1][0]), byid[-1][1]), m.Equals(m.Select(S_, byid[0][0]), byid[0][1])]
+            out.append(m.Equals(lit, chain))
+            if n:
+                for k, v in ((pairs[0], byid[-1]) if quick else (pairs[0], pairs[-1], byid[-1])):
                     other = m.Array(it, d, dict((kk, (m.Int(5) if kk is k else vv)) for kk, vv in pairs))
-                    out += [m.Equals(lit, other), m.Equals(m.Store(other, k, v), chain)]
+                    out += [m.Equals(lit, other)] + ([] if quick else [m.Equals(m.Store(other, k, v), chain)])
         # n-ary operators with N operands, a distinguished operand at each end
         p, q, i, j, sx, sy = self.p, self.q, self.i, self.j, self.sx, self.sy
         x8, y8 = m.Symbol("zx8", BVType(8)), m.Symbol("zy8", BVType(8))
